@@ -492,30 +492,37 @@ def run_property(pid: str, rulefn: Callable[[Check], None], level: str, tier: st
     """Run all rules of one property on `repo`.  Returns (exit code, evidence)."""
     t0 = time.time()
     out_lines: list[str] = []
+    pending: Optional[str] = None
     try:
         source = Source(repo)
         chk = Check(pid, source, tier, seed)
-        rulefn(chk)
-        # a definite violation is reported even if another rule lost its anchor;
-        # floors / undecided obligations only matter when nothing was violated
-        if not any(o.verdict == "violated" for o in chk.obs):
-            chk.check_floors()
-            und = [o for o in chk.obs if o.verdict == "undecided"]
-            if und:
-                raise Undecided(
-                    "; ".join(f"{o.rule} @ {o.where}: {o.desc} [{o.detail}]" for o in und[:5])
-                )
     except AnalysisError as e:
         msg = f"ANALYSIS-ERROR property={pid} {type(e).__name__}: {e}"
         if not quiet:
             print(msg)
         return 2, {"error": msg}
+    try:
+        rulefn(chk)
+        chk.check_floors()
+        und = [o for o in chk.obs if o.verdict == "undecided"]
+        if und:
+            raise Undecided(
+                "; ".join(f"{o.rule} @ {o.where}: {o.desc} [{o.detail}]" for o in und[:5])
+            )
+    except AnalysisError as e:
+        pending = f"ANALYSIS-ERROR property={pid} {type(e).__name__}: {e}"
     except Exception as e:  # internal bug -> analysis error, not a violation
-        msg = f"ANALYSIS-ERROR property={pid} internal {type(e).__name__}: {e}"
+        pending = f"ANALYSIS-ERROR property={pid} internal {type(e).__name__}: {e}"
         if not quiet:
-            print(msg)
             traceback.print_exc()
-        return 2, {"error": msg}
+    # a definite violation is reported even if another rule lost its anchor or
+    # met a construct it cannot analyse; otherwise the analysis error wins
+    if pending is not None and not any(o.verdict == "violated" for o in chk.obs):
+        if not quiet:
+            print(pending)
+        return 2, {"error": pending}
+    if pending is not None:
+        out_lines.append("note: " + pending)
 
     findings = load_known_findings()
     viol = [o for o in chk.obs if o.verdict == "violated"]
